@@ -93,4 +93,14 @@ def run(ctx):
     for ps, g in [("PEd25519", "Ed25519"), ("P1024", "I1024"), ("P2048", "I2048"), ("P3072", "I3072")]:
         uni.paramset(ps)
         traces += full_size(ctx, uni, g, thorough)
+    # beyond the listed properties: type misuse raises, equal elements hash equally, Ed25519 clamping
+    t = Trace("api-misuse", uni)
+    for g, other in (("i23", "i263"), ("ed37", "i23"), ("Ed25519", "I1024"), ("I1024", "I2048")):
+        uni.group(g)
+        uni.group(other)
+        for e in pure.misuse_events(uni, g, other):
+            t.raw(e)
+    for b in (bytes(32), b"\xff" * 32, bytes(range(32)), bytes([ctx.rng.randrange(256) for _ in range(32)])):
+        t.raw(pure.ev_clamp(uni, "Ed25519", b))
+    traces.append(t.to_json())
     ctx.validate(traces, uni, what="element API")
